@@ -175,12 +175,14 @@ func Run(r *rand.Rand, o Options) *Result {
 		s.tSplit()
 	case "lone-finisher":
 		s.tLone()
+	case "vote-and-leave":
+		s.tVoteAndLeave()
 	}
 	s.finish()
 	return s.res
 }
 
-var templates = []string{"random", "split", "split", "long-split", "lone-finisher", "lone-finisher"}
+var templates = []string{"random", "split", "split", "long-split", "lone-finisher", "lone-finisher", "vote-and-leave", "vote-and-leave"}
 
 func (s *sim) setup() {
 	r := s.r
@@ -922,6 +924,205 @@ func (s *sim) tLone() {
 		}
 	}
 	s.heal(len(s.vals) + r.Intn(2*len(s.vals)+1))
+}
+
+// tVoteAndLeave: validators prevote a block on one branch and leave before they learn that
+// their own block completed the quorum (stale tips); one or two "stayers" remain and
+// precommit; the leavers join a longer branch built meanwhile by validators that never saw the
+// first branch, help it to quorums and finality; later some of the builders / leavers are shown
+// the first branch again and return to it whenever the fork choice allows.  A validator
+// returning to a branch must not precommit blocks at or below the height up to which it was
+// forging elsewhere (heightNotPrevoted); with a lowered precommit threshold a single such
+// precommit can complete finality of a block conflicting with what the other branch finalized.
+func (s *sim) tVoteAndLeave() {
+	r := s.r
+	s.trunk(r.Intn(2*len(s.vals) + 2))
+	if !s.ok() {
+		return
+	}
+	fork := s.honest()[0].tip
+	hs := s.honest()
+	if len(hs) < 3 {
+		s.tLone()
+		return
+	}
+	r.Shuffle(len(hs), func(i, j int) { hs[i], hs[j] = hs[j], hs[i] })
+	nD := 1
+	if len(hs) >= 5 && r.Intn(3) == 0 {
+		nD = 2
+	}
+	D := hs[:nD] // builders of the other branch: see nothing of the first branch at first
+	P := hs[nD:]
+	byz := s.byz()
+	// first branch: chain delivery among P (and, two-faced, the Byzantine validators)
+	k := len(P) - 1 + r.Intn(len(P)+2)
+	lastA := fork
+	order := r.Perm(len(P))
+	for i := 0; i < k && s.ok(); i++ {
+		v := P[order[i%len(P)]]
+		if len(byz) > 0 && r.Intn(len(P)+1) == 0 {
+			if id := s.byzForge(byz[r.Intn(len(byz))], lastA, "two-faced"); id >= 0 {
+				lastA = id
+			}
+			continue
+		}
+		s.deliver(v, lastA)
+		if id := s.honestForge(v); id >= 0 {
+			lastA = id
+		}
+	}
+	// stayers
+	nS := 1 + r.Intn(2)
+	if nS >= len(P) {
+		nS = 1
+	}
+	var S, L []*val
+	for i, idx := range r.Perm(len(P)) {
+		if i < nS {
+			S = append(S, P[idx])
+		} else {
+			L = append(L, P[idx])
+		}
+	}
+	extendA := func(n int) {
+		for i := 0; i < n && s.ok(); i++ {
+			v := S[r.Intn(len(S))]
+			s.deliver(v, lastA)
+			if id := s.honestForge(v); id >= 0 {
+				lastA = id
+				s.deliverAll(S, id)
+			}
+		}
+	}
+	extendA(r.Intn(4))
+	// the other branch
+	var maxTip uint32
+	for _, v := range L {
+		if h := s.node(v.tip).H.Height; h > maxTip {
+			maxTip = h
+		}
+	}
+	want := int(maxTip) - int(s.node(fork).H.Height) + 1 + r.Intn(2)
+	lastB := fork
+	for i := 0; i < want && s.ok(); i++ {
+		var id int
+		if len(byz) > 0 && r.Intn(3) == 0 {
+			id = s.byzForge(byz[r.Intn(len(byz))], lastB, "two-faced")
+		} else {
+			v := D[i%len(D)]
+			s.deliver(v, lastB)
+			id = s.honestForge(v)
+		}
+		if id >= 0 {
+			lastB = id
+		}
+	}
+	for _, v := range D {
+		s.deliver(v, lastB)
+	}
+	// leavers adopt the longer branch and work on it with the builders
+	for _, v := range L {
+		s.deliver(v, lastB)
+	}
+	campB := append(append([]*val(nil), L...), D...)
+	stale := r.Intn(2) == 0 // chain delivery (tips stay stale) or full delivery inside the camp
+	rounds := 1 + r.Intn(3)
+	for rd := 0; rd < rounds && s.ok(); rd++ {
+		seq := append(append([]*val(nil), campB...), byz...)
+		r.Shuffle(len(seq), func(i, j int) { seq[i], seq[j] = seq[j], seq[i] })
+		for _, v := range seq {
+			if !s.ok() {
+				break
+			}
+			var id int
+			if v.Byz {
+				id = s.byzForge(v, lastB, "two-faced")
+			} else {
+				if stale {
+					s.deliver(v, lastB)
+				}
+				id = s.honestForge(v)
+			}
+			if id >= 0 {
+				if s.res.isAncestor(lastB, id) {
+					lastB = id
+				}
+				if !stale {
+					s.deliverAll(campB, id)
+				}
+			}
+		}
+		if r.Intn(2) == 0 {
+			extendA(1 + r.Intn(2))
+		}
+	}
+	// return: the first branch grows beyond what the returnees generated, then it is shown to them
+	var maxGen uint32
+	cands := append(append([]*val(nil), D...), L...)
+	for _, v := range cands {
+		if v.maxGen > maxGen {
+			maxGen = v.maxGen
+		}
+	}
+	need := int(maxGen) - int(s.node(lastA).H.Height) + r.Intn(3)
+	if need > 0 {
+		extendA(need)
+	}
+	nR := 1 + r.Intn(len(cands))
+	var R []*val
+	for _, idx := range r.Perm(len(cands))[:nR] {
+		R = append(R, cands[idx])
+	}
+	for _, v := range R {
+		s.deliver(v, lastA)
+	}
+	for rd := 0; rd < 1+r.Intn(3) && s.ok(); rd++ {
+		for _, v := range R {
+			if !s.ok() {
+				break
+			}
+			if id := s.honestForge(v); id >= 0 {
+				if s.res.isAncestor(lastA, id) {
+					lastA = id
+					s.deliverAll(S, id)
+					s.deliverAll(R, id)
+				}
+			}
+		}
+		for _, z := range byz {
+			if id := s.byzForge(z, lastA, "two-faced"); id >= 0 {
+				lastA = id
+				s.deliverAll(S, id)
+				s.deliverAll(R, id)
+			}
+		}
+		extendA(r.Intn(2))
+		// the rest of the other camp keeps going
+		for _, v := range campB {
+			if !s.ok() {
+				break
+			}
+			if s.res.isAncestor(fork, v.tip) && !s.res.isAncestor(v.tip, lastA) && r.Intn(2) == 0 {
+				if id := s.honestForge(v); id >= 0 {
+					for _, u := range campB {
+						if !containsVal(R, u) {
+							s.deliver(u, id)
+						}
+					}
+				}
+			}
+		}
+	}
+	s.heal(len(s.vals) + r.Intn(2*len(s.vals)+1))
+}
+
+func containsVal(vs []*val, x *val) bool {
+	for _, v := range vs {
+		if v == x {
+			return true
+		}
+	}
+	return false
 }
 
 // ---------------------------------------------------------------------------------------
